@@ -1,5 +1,87 @@
 import Cellml.Basic.Sexp
-/-! Channel C15 of the model driver (stub: not built yet). -/
+import Cellml.C01.Driver
+import Cellml.C15.Model
+
+/-! Channel C15: `(C15 load|loadset <adv> (units…) (comps…) (encaps…) (conns…))`, document format of channel C01,
+    `<adv>` = `id | rev | (rot k)` — the order every iterated set hands out its elements.
+    → `(ok (vars "c$v"…) (eqs "lhs"…) (leaves ("lhs" ("leaf"…))…) (states …) (derivs …) (derived …) (nodes …)
+           (eqsfor ("v" ("lhs"…))…) (eqsforall …) (eqsforallunits …) (eqsfordirect ("v" (…))…))`
+    | `(err Class "what")`; a query that fails answers `(qerr kind)` in its slot.
+    Nodes are numbered by position in `variables ++ derivative left-hand sides`; keys are `str()` of the SymPy
+    objects (`_c$v`, `Derivative(_c$x, _c$t)`). -/
 namespace C15
-def handle (_args : List Sexp) : Sexp := .atom "not-implemented"
+open Sexp Load
+
+def adv? : Sexp → Option Adv
+  | .atom "id" => some Adv.ident
+  | .atom "rev" => some Adv.rev
+  | .list [.atom "rot", k] => do some (Adv.rot (← nat? k))
+  | _ => none
+
+/-- all nodes the queries can mention: the variables, then the derivative left-hand sides in equation order -/
+def universe (F : Flat) : List (Lhs VRef) :=
+  (variables F).map Lhs.var ++ (F.eqs.filter (·.lhs.isDiff)).map (·.lhs)
+
+def strKey : Lhs VRef → String
+  | .var a => "_" ++ C01.flatName a
+  | .diff x t => "Derivative(_" ++ C01.flatName x ++ ", _" ++ C01.flatName t ++ ")"
+
+def ctxOf (F : Flat) : Ctx :=
+  let U := universe F
+  { num := fun x => U.idxOf x
+    key := fun n => match U[n]? with
+      | some x => strKey x
+      | none => "?" ++ toString n }
+
+def nodeName (F : Flat) (n : Node) : Sexp :=
+  match (universe F)[n]? with
+  | some x => .str (C01.lhsName x)
+  | none => .str ("?" ++ toString n)
+
+def errName : C09.Err → String
+  | .assertion => "assertion"
+  | .badRef => "badRef"
+  | .notInGraph => "notInGraph"
+  | .unfeasible => "unfeasible"
+
+def ofNodes (F : Flat) (tag : String) : Except C09.Err (List Node) → Sexp
+  | .ok l => .list (.atom tag :: l.map (nodeName F))
+  | .error e => .list [.atom tag, .list [.atom "qerr", .atom (errName e)]]
+
+def perNode (F : Flat) (tag : String) (nodes : List Node) (f : Node → Except C09.Err (List Node)) : Sexp :=
+  .list (.atom tag :: nodes.map (fun v => match f v with
+    | .ok l => Sexp.list [nodeName F v, .list (l.map (nodeName F))]
+    | .error e => Sexp.list [nodeName F v, .list [.atom "qerr", .atom (errName e)]]))
+
+def reply (π : Adv) (F : Flat) : Sexp :=
+  let cx := ctxOf F
+  let vars := (variables F).map (fun v => Sexp.str (C01.flatName v))
+  let eqs := F.eqs.map (fun e => Sexp.str (C01.lhsName e.lhs))
+  let leaves := F.eqs.map (fun e => Sexp.list [.str (C01.lhsName e.lhs), .list (e.rhs.leaves.map (fun l => .str (C01.lhsName l)))])
+  let gnodes := match graphNodes cx π obsAll F with | .ok l => l | .error _ => []
+  let derivs := match getDerivatives cx π obsAll F with | .ok l => l | .error _ => []
+  let asked := ((variables F).map (fun v => cx.num (.var v))).filter (· ∈ gnodes) ++ derivs
+  .list [.atom "ok", .list (.atom "vars" :: vars), .list (.atom "eqs" :: eqs), .list (.atom "leaves" :: leaves),
+    ofNodes F "states" (.ok (getStateVariables cx F)),
+    ofNodes F "derivs" (getDerivatives cx π obsAll F),
+    ofNodes F "derived" (getDerivedQuantities cx π obsAll F),
+    ofNodes F "nodes" (graphNodes cx π obsAll F),
+    perNode F "eqsfor" asked (fun v => getEquationsFor cx π obsAll F [v] true true),
+    ofNodes F "eqsforall" (getEquationsFor cx π obsAll F asked true true),
+    ofNodes F "eqsforallunits" (getEquationsFor cx π obsAll F asked true false),
+    perNode F "eqsfordirect" asked (fun v => getEquationsFor cx π obsAll F [v] false true)]
+
+def handle (args : List Sexp) : Sexp :=
+  match args with
+  | .atom which :: a :: rest =>
+      match adv? a, C01.doc? rest with
+      | some π, some doc =>
+          let r := if which = "loadset" then loadSet π doc else if which = "load" then load π doc
+                   else .error (.unsupported "bad-request")
+          match r with
+          | .error e => C01.errSexp e
+          | .ok F => reply π F
+      | _, _ => .atom "bad-document"
+  | _ => .atom "bad-request"
+
 end C15
